@@ -35,26 +35,17 @@ class NS(Model):
             setattr(self, k, v)
 
 
-class MMatch(Model):
-    def __init__(self, m):
-        self._m = m
-
-    def group(self, *a):
-        return self._m.group(*a)
-
-
-class MRe(Model):
-    DOTALL = _re.DOTALL
-
-    def search(self, pat, text, flags=0):
-        m = _re.search(pat, text, flags)
-        return MMatch(m) if m else None
+from ..verilogmodel import MMatch, MRe  # noqa: E402  (the faithful `re` model shared with the parsers)
 
 
 class MFile(Model):
+    """A buffered text file: what another process reading the path sees is what had been flushed when it looked (`on_disk`), not
+    everything that was handed to write() (`data`)."""
+
     def __init__(self, name):
         self.name = name
         self.data = ""
+        self.on_disk = ""
         self._pos = 0
 
     def write(self, s):
@@ -62,7 +53,11 @@ class MFile(Model):
         return len(s)
 
     def flush(self):
+        self.on_disk = self.data
         return None
+
+    def close(self):
+        self.on_disk = self.data
 
     def seek(self, pos):
         self._pos = pos
@@ -352,6 +347,30 @@ def run(chk):
                 r = PPS.call("props.py", "signal_probability", cm, node, False)
             ok = r[0] == "return" and isinstance(r[1], (int, float)) and Fraction(r[1]).limit_denominator(1 << 20) == want
             chk.ob("C08.P.value", f"signal_probability::{mname}::{node}", ok, file="props.py", func="signal_probability", fact={"result": str(r)[:80], "expected": str(want)}, expect=str(want))
+    # feedback inside the cone: a valuation of the startpoints that has *no* consistent extension is not one "under which n is 1"
+    # (and each of the others has exactly one here, so "n is 1" is unambiguous) - `1 - P(n is 0)` is not P(n is 1) on these
+    from ..satpipe import consistent_valuations as _cons
+
+    fb_models = {
+        "gated-odd-ring": build({"en": I_, "n0": ("nand", ["en", "n2"]), "n1": ("not", ["n0"]), "n2": ("not", ["n1"]), "o": ("buf", ["n0"])}, outputs=["o"]),
+        "gated-odd-ring-through-an-or": build({"en": I_, "b": I_, "n0": ("or", ["en", "n2"]), "n1": ("not", ["n0"]), "n2": ("buf", ["n1"]), "o": ("and", ["n0", "b"])}, outputs=["o"]),
+        "two-gated-rings": build({"e0": I_, "e1": I_, "p0": ("nand", ["e0", "p1"]), "p1": ("buf", ["p0"]), "q0": ("nor", ["e1", "q1"]), "q1": ("buf", ["q0"]), "o": ("or", ["p0", "q0"])}, outputs=["o"]),
+    }
+    PSRC = _pp(repo, True)  # the repository's own counter from source over the DPLL solver model (the reference counter simulates)
+    for mname, cm in fb_models.items():
+        for node in sorted(cm.nodes()):
+            sub = cm.transitive_fanin(node) | {node}
+            cone = build({n_: (cm.type(n_), sorted(cm.fanin(n_))) for n_ in sorted(sub)}, outputs=[node])
+            sp = sorted(cm.startpoints(node))
+            per = {}
+            for v in _cons(cone):
+                per.setdefault(tuple(v[s_] for s_ in sp), []).append(v)
+            if any(len(x) > 1 for x in per.values()):
+                continue  # a valuation with two extensions in the cone: which of them counts is not laid down
+            want = Fraction(sum(1 for x in per.values() if x[0][node]), 2 ** len(sp))
+            r = PSRC.call("props.py", "signal_probability", cm, node, False)
+            ok = r[0] == "return" and isinstance(r[1], (int, float)) and Fraction(r[1]).limit_denominator(1 << 20) == want
+            chk.ob("C08.P.value", f"signal_probability::feedback::{mname}::{node}", ok, file="props.py", func="signal_probability", fact={"result": str(r)[:80], "expected": str(want)}, expect=str(want))
     # ---- D: approx_model_count DIMACS ---------------------------------
     fa = repo.func(FILE, "approx_model_count")
     pa = func_params(fa.node)
@@ -384,6 +403,7 @@ def run(chk):
 
             def fake_run(cmd, stdout=None, stderr=None, **kw):
                 fake_run.cmd = cmd
+                fake_run.seen = [f.on_disk for f in files]  # the instance as the external counter finds it on disk
                 if stdout is not None:
                     stdout.write("c ApproxMC\ns mc 7\n")
                 return None
@@ -396,7 +416,7 @@ def run(chk):
             tag = f"{sname}::{'+'.join(sorted(asm)) if asm else 'no-assumptions'}"
             ok_ret = r == ("return", 7)
             chk.ob("C08.D.result-parsed", f"approx_model_count::{tag}", ok_ret, file=FILE, func="approx_model_count", line=fa.node.lineno, fact={"result": str(r)}, expect=7)
-            dimacs = files[0].data if files else ""
+            dimacs = (fake_run.seen[0] if getattr(fake_run, "seen", None) else "") if files else ""
             lines = [l for l in dimacs.split("\n") if l.strip()]
             ind = None
             ind_bad = False
